@@ -204,3 +204,88 @@ Example C06_ex_adler : adler_update 1 [87; 105; 107; 105; 112; 101; 100; 105; 97
 Proof. vm_compute. reflexivity. Qed.
 Example C06_ex_empty : sc_encode_stored 61 [] = [65; 65; 65; 65; 65; 65; 65; 65; 65; 65; 66; 54; 101; 65; 69; 66; 65; 65; 68; 47; 47; 119; 65; 65; 65; 65; 69; 61; 61; 10; 0].
 Proof. vm_compute. reflexivity. Qed.
+
+(* ==================================================================================================== *)
+(* --- sc_puff against RFC 1951: functional correctness on Huffman streams -------------------------------
+   The specification (C06/DeflateSpec.v) is written from RFC 1951 / RFC 1950 and does not mention the code:
+   LSB-first bit packing, the canonical Huffman code of a length vector (bl_count / next_code), the
+   literal/length/distance alphabets with their extra bits, the fixed code, the dynamic header with its
+   run-length coded code lengths, stored blocks, the block sequence, the zlib wrapper with Adler-32.     *)
+From ScV Require Import C06.DeflateSpec C06.DeflateCanon C06.DeflateBits.
+
+(* the canonical codes fit into their lengths and form a prefix code whenever the Kraft sum is at most 1 *)
+Theorem C06_canonical_fits : forall ls sym, not_over ls -> has_code ls sym ->
+  0 <= code_val ls sym < 2 ^ nth (Z.to_nat sym) ls 0.
+Proof. exact code_val_fits. Qed.
+Print Assumptions C06_canonical_fits.
+
+Theorem C06_canonical_prefix_free : forall ls a b, not_over ls -> has_code ls a -> has_code ls b ->
+  prefix (code_of ls a) (code_of ls b) -> a = b.
+Proof. exact canonical_prefix_free. Qed.
+Print Assumptions C06_canonical_prefix_free.
+
+(* stage (a): the bit reader of sc_puff.c.  inrep c s bs tail: the bits the state s has not consumed yet are bs
+   (the low p_bitcnt bits of the bit buffer, then the bytes up to inlen, each LSB first).  If they start with the
+   n-bit data element v, bits(s, n) returns v and leaves exactly the rest; the output side is untouched. *)
+Theorem C06_puff_bits : forall c s need v rest tail,
+  inrep c s (bitsZ need v ++ rest) tail -> 0 <= need <= 16 -> 0 <= v < 2 ^ need ->
+  exists s', bits c s need = Ok (v, s') /\ inrep c s' rest tail /\ sameout s s'.
+Proof. exact bits_spec. Qed.
+Print Assumptions C06_puff_bits.
+
+(* stage (b): Huffman decoding.  huff_for ls h: the tables count[] / symbol[] of sc_puff.c describe the canonical code
+   of the code lengths ls.  construct() builds such tables for every length vector that is not over-subscribed
+   (complete or not) and returns 2^15 - Kraft sum (0 iff complete; 0 as well when there is no code at all);
+   decode() then returns the symbol whose canonical code (RFC 1951 3.2.2, most significant bit first) the unread
+   bits start with, and consumes exactly that code. *)
+From ScV Require Import C07.PuffHuffman C06.DeflateDecode C06.DeflateConstruct.
+
+Theorem C06_puff_construct : forall lengths loff n, 0 <= loff -> 0 <= n <= 1000 -> loff + n <= len lengths ->
+  let ls := lens_at lengths loff n in
+  Forall (fun v => 0 <= v <= 15) ls ->
+  forall h, len (h_count h) = 16 -> n <= len (h_symbol h) -> not_over ls ->
+  exists err h', construct h lengths loff n = Ok (err, h') /\ huff_for ls h' /\
+    (forall l, 0 <= l < 16 -> nth (Z.to_nat l) (h_count h') 0 = cnt ls l) /\
+    len (h_symbol h') = len (h_symbol h) /\
+    (cnt ls 0 = n -> err = 0) /\ (cnt ls 0 <> n -> err = 2 ^ 15 - kraft ls).
+Proof. exact construct_spec. Qed.
+Print Assumptions C06_puff_construct.
+
+Theorem C06_puff_decode : forall c h ls sym tail rest,
+  huff_for ls h -> not_over ls -> has_code ls sym ->
+  forall s, inrep c s (code_of ls sym ++ rest) tail ->
+  exists s', decode c h s = Ok (sym, s') /\ inrep c s' rest tail /\ sameout s s'.
+Proof. exact decode_spec. Qed.
+Print Assumptions C06_puff_decode.
+
+(* stages (c) and (d): the symbol loop.  outrep c s o: the output produced so far is o (only its length is kept when
+   dest == NIL).  `symbols lit dist o bs o'` (DeflateSpec.v) is the RFC's description of the compressed data of a block:
+   literals, <length, distance> pairs with extra bits and overlapping copy, end-of-block.  codes() with tables for the
+   codes lit/dist turns the output o into o' and consumes exactly bs; N = length of the complete output, which the
+   destination must be able to hold.  The tables lens/lext/dists/dext of sc_puff.c are the RFC's printed tables. *)
+From ScV Require Import C06.DeflateCodes.
+
+Theorem C06_puff_tables_are_rfc :
+  combine lext lens = rfc_len_table /\ combine dext dists = rfc_dist_table /\
+  map (fun i => (len_extra i, len_base i)) (map Z.of_nat (seq 0 29)) = rfc_len_table /\
+  map (fun j => (dist_extra j, dist_base j)) (map Z.of_nat (seq 0 30)) = rfc_dist_table.
+Proof. exact tables_are_rfc. Qed.
+Print Assumptions C06_puff_tables_are_rfc.
+
+Theorem C06_puff_codes : forall c lc dc lit dist tail,
+  huff_for lit lc -> huff_for dist dc -> not_over lit -> not_over dist ->
+  forall N, N < M64 -> (c_nil c = false -> N <= c_outlen c /\ N <= c_outcap c) ->
+  forall s o bs o' rest,
+  symbols lit dist o bs o' -> len o' <= N -> inrep c s (bs ++ rest) tail -> outrep c s o ->
+  exists s', codes c lc dc s = Ok s' /\ inrep c s' rest tail /\ outrep c s' o'.
+Proof. exact codes_spec. Qed.
+Print Assumptions C06_puff_codes.
+
+(* fixed(): blocks coded with the fixed codes of RFC 1951 3.2.6 (288 literal/length codes of 7-9 bits, 5-bit distances) *)
+Theorem C06_puff_fixed : forall c s o bs o' rest tail N,
+  symbols fixed_lit fixed_dist o bs o' -> len o' <= N -> N < M64 ->
+  (c_nil c = false -> N <= c_outlen c /\ N <= c_outcap c) ->
+  inrep c s (bs ++ rest) tail -> outrep c s o ->
+  exists s', fixed c s = Ok s' /\ inrep c s' rest tail /\ outrep c s' o'.
+Proof. exact fixed_spec. Qed.
+Print Assumptions C06_puff_fixed.
